@@ -73,7 +73,11 @@ func (i IPAddr) IsLoopback() bool {
 	// 		The reason for IpV4 is that provided the truncated ip address is a
 	// 		loopback address, its prefix cannot be less than 8 because
 	// 		otherwise its more significant byte cannot be 127
-	return i.Prefix().Masked().Addr().IsLoopback()
+	//
+	// netip treats an IPv4-mapped IPv6 address (::ffff:127.0.0.1) like the IPv4 address inside it; for Cedar it is an
+	// IPv6 address, and the only IPv6 loopback address is ::1
+	addr := i.Prefix().Masked().Addr()
+	return addr.IsLoopback() && !addr.Is4In6()
 }
 
 func (i IPAddr) Addr() netip.Addr {
@@ -99,7 +103,8 @@ func (i IPAddr) IsMulticast() bool {
 	} else {
 		minPrefixLen = 8
 	}
-	return i.Addr().IsMulticast() && i.Prefix().Bits() >= minPrefixLen
+	// an IPv4-mapped IPv6 address is not in ff00::/8 (netip would look at the IPv4 address inside it)
+	return i.Addr().IsMulticast() && !i.Addr().Is4In6() && i.Prefix().Bits() >= minPrefixLen
 }
 
 func (i IPAddr) Contains(o IPAddr) bool {
